@@ -178,7 +178,7 @@ class Model(object):
         sq_distances = np.zeros((self.npt(),))
         xopt = self.xopt()
         for k in range(self.npt()):
-            sq_distances[k] = sumsq(self.points[k, :] - xopt)
+            sq_distances[k] = sumsq(self.xpt(k) - xopt)  # both clipped to the bounds, like every other use of the point set
         return sq_distances
 
     def change_point(self, k, x, rvec, eval_num, allow_kopt_update=True):
